@@ -149,6 +149,16 @@ def handle_events(sol_tuple, events, consts, direction, is_terminal, attributes)
     up = D.ar_numpy.where(clear_crossing, clear_up, up)
     down = D.ar_numpy.where(clear_crossing, clear_down, down)
 
+    # All the samples next to a certified root can lie within the evaluation noise of the event function (slope
+    # events in single precision) and show no crossing at all: the signs at the two ends of the step then decide
+    undecided = success & ~(up | down)
+    if D.ar_numpy.any(undecided):
+        g_prev = D.ar_numpy.stack([ev_f[idx](t_prev) for idx in range(len(roots))])
+        g_next = D.ar_numpy.stack([ev_f[idx](t_next) for idx in range(len(roots))])
+        step_crossing = undecided & ((g_prev * g_next) < 0)
+        up = up | (step_crossing & (g_prev < 0))
+        down = down | (step_crossing & (g_prev > 0))
+
     up = success & up
     down = success & down
     either = up | down
